@@ -104,6 +104,12 @@ type VerifSim struct {
 	fetchN          int
 	fetches         []VerifSimFetchInfo
 	logStart        map[string]int64
+	// group coordinator (sim_group.go)
+	GroupScript VerifSimGroupScript
+	GroupGhosts int
+	groups      map[string]*simGroup
+	groupReqs   []VerifSimGroupReq
+	groupSeq    int
 	// Other handles request types the cluster does not know (group/offset/fetch protocols are added by other harnesses)
 	Other func(b int32, body protocolBody) encoderWithHeader
 }
@@ -250,7 +256,9 @@ func (b *simBroker) serve(c net.Conn) {
 		case *OffsetRequest:
 			res = b.sim.listOffsets(b.id, body)
 		default:
-			if b.sim.Other != nil {
+			if gres, gclose, ok := b.sim.handleGroup(b.id, req.body); ok {
+				res, closeAfter = gres, gclose
+			} else if b.sim.Other != nil {
 				res = b.sim.Other(b.id, req.body)
 			}
 		}
